@@ -5,7 +5,7 @@
    normalizeApp / normalizeEndpoint / normalizeEvent drop or add a normalize* call. *)
 From Coq Require Import String List Bool NArith.
 Import ListNotations.
-Require Import Verif.Relmod.Model Verif.Relmod.StmtProps Verif.Relmod.Run Verif.Relmod.CensusProps Verif.Gen.RelmodShape.
+Require Import Verif.Relmod.Model Verif.Relmod.StmtProps Verif.Relmod.Run Verif.Relmod.CensusProps Verif.Relmod.Rebuild Verif.Gen.RelmodShape.
 Local Open Scope string_scope.
 Local Open Scope list_scope.
 
@@ -36,6 +36,10 @@ Lemma endpoint_calls_shape :
 Proof. reflexivity. Qed.
 
 Lemma event_calls_shape : event_calls = ["normalizeParam"; "normalizeEventMeta"].
+Proof. reflexivity. Qed.
+
+(* every `range` of normalize.go goes over a slice or over sortedKeys(map): Model.v's sorted_by walks *)
+Lemma every_map_walk_is_sorted : unsorted_map_ranges = [].
 Proof. reflexivity. Qed.
 
 (* the statement rows of the CURRENT source: the value-semantics construction *)
@@ -76,3 +80,13 @@ Proof. rewrite child_paths_are_fresh, alt_paths_are_fresh. apply one_row_per_app
 Theorem current_one_stmt_row_per_visible_statement a ep stmts :
   rel_count RStmt (map (item_row a ep) (ep_items child_index_mode alt_index_mode stmts)) = list_sum (map visible_stmts stmts).
 Proof. rewrite current_ep_items. apply one_stmt_row_per_visible_statement. Qed.
+
+(* the round trip for the CURRENT source *)
+Theorem current_rows_lossless m rs :
+  normalize child_index_mode alt_index_mode m = Rows rs -> rebuild rs = project m.
+Proof. rewrite child_paths_are_fresh, alt_paths_are_fresh. apply rows_lossless. Qed.
+
+Theorem current_rows_determine_projection m1 m2 rs :
+  normalize child_index_mode alt_index_mode m1 = Rows rs -> normalize child_index_mode alt_index_mode m2 = Rows rs ->
+  project m1 = project m2.
+Proof. rewrite child_paths_are_fresh, alt_paths_are_fresh. apply rows_determine_projection. Qed.
